@@ -168,6 +168,11 @@ async fn run_port(case: Case) {
                 return;
             }
             if case.event == Event::ReceiverClose && count >= case.pos && !closed {
+                // Sometimes a first attempt to close is abandoned part-way (a timeout, a select!): the
+                // close must still take effect when it is requested again.
+                if kit::coin(1, 3) && kit::cancel_after(rx.close(), kit::draw_range(1, 2)).await.is_none() {
+                    kit::fault_fired("close_cancelled");
+                }
                 rx.close().await;
                 closed = true;
                 kit::probe("receiver_closed");
@@ -402,6 +407,9 @@ async fn run_base(case: Case) {
                 return;
             }
             if case.event == Event::ReceiverClose && count >= case.pos && !closed {
+                if kit::coin(1, 3) && kit::cancel_after(rx.close(), kit::draw_range(1, 2)).await.is_none() {
+                    kit::fault_fired("close_cancelled");
+                }
                 rx.close().await;
                 closed = true;
                 kit::probe("receiver_closed");
